@@ -155,6 +155,11 @@ def model_specs(
             m = draw(st.integers(*n_readings))
             # a reading named like its sensor's generated struct (name.title()) would collide with the constructor
             rnames = [r + "_r" if r == key.title() else r for r in draw(N.ident_lists(m))]
+            if sensors and draw(st.sampled_from([False, False, False, True])):
+                # two sensors may name a reading alike (gps.x / odom.x): whatever is keyed by reading name alone collides
+                other = draw(st.sampled_from(sorted(r_ for rs_ in sensors.values() for r_ in rs_)))
+                if other not in rnames and other != key.title():
+                    rnames[0] = other
             ssyms = state + calib
             # SensorModel.__init__ evaluates every sensor at the all-zero state ("pre-flight"), so an accepted
             # sensor must be defined there: only calibration symbols may be used as positive divisors.
@@ -166,6 +171,8 @@ def model_specs(
 
     # the project's own tests key a single-reading sensor (and its noise) by a sympy Symbol instead of a string
     symbol_keyed = [k for k, rs in sensors.items() if len(rs) == 1 and draw(st.integers(0, 5)) == 0]
+    # ... and the documented key type of a noise map is the Symbol, also where the readings are named by strings
+    noise_symbol_keyed = [k for k in sensors if k not in symbol_keyed and draw(st.sampled_from([False, False, False, True]))]
 
     cfg = {
         "cse": draw(st.booleans()) if cse is None else cse,
@@ -192,6 +199,7 @@ def model_specs(
         "config": cfg,
         "pool_size": len(pooltrees),
         "symbol_keyed": symbol_keyed,
+        **({"noise_symbol_keyed": noise_symbol_keyed} if noise_symbol_keyed else {}),
         **({"calib_type": calib_type} if calib_type != "float" else {}),
         # both documented forms of `config=` for both back-ends: default = python.Config object / dict for cpp; swapped =
         # dict for python / cpp.Config object
@@ -356,8 +364,18 @@ def sensor_models(spec, tab=None):
     return {key: {_rkey(spec, key, r): T.to_sympy(t, tab) for r, t in m.items()} for key, m in spec["sensors"].items()}
 
 
+def _nkey(spec, key, r):
+    """noise maps are documented as keyed by Symbols (dict[Symbol | tuple, float]); strings work as well. For the sensors in
+    spec["noise_symbol_keyed"] the noise map is keyed by Symbols although the sensor's readings are named by strings."""
+    if key in spec.get("symbol_keyed", []) or key in spec.get("noise_symbol_keyed", []):
+        import sympy
+
+        return sympy.Symbol(r)
+    return r
+
+
 def sensor_noises(spec):
-    return {key: {_rkey(spec, key, r): _noise_value(spec, v) for r, v in m.items()} for key, m in spec["sensor_noises"].items()}
+    return {key: {_nkey(spec, key, r): _noise_value(spec, v) for r, v in m.items()} for key, m in spec["sensor_noises"].items()}
 
 
 def py_config(spec, **over):
